@@ -205,19 +205,31 @@ def lake_build(targets=("SSVerif", "ssdriver")):
 
 _DRIVER_COPY = None
 
+# which driver sub-commands (one executable each, lean/Driver/Exe) a property's check runs
+DRIVERS = {"C01": ["c01", "c01s"], "C03": ["c01", "c01s"], "C11": ["c11"], "C12": ["c11"]}
+
+
+def drivers_of(prop):
+    return DRIVERS.get(prop, [prop.lower()])
+
 
 def driver_path():
-    """the compiled driver; a check works on its own copy (made after its lake build) so that a
-    concurrent relink by another check cannot pull the binary away mid-run"""
+    """the driver a check executes: `<path> <sub> [args] < ops`.  After `pin_driver` this is a small
+    dispatcher in the check's scratch directory that execs the check's own copies of the per-model
+    executables (ssdriver-<sub>), so that neither a concurrent relink nor a driver module of ANOTHER
+    property that no longer compiles can disturb this check."""
     return _DRIVER_COPY or (LEAN / ".lake" / "build" / "bin" / "ssdriver")
 
 
-def pin_driver(scratch):
+def pin_driver(scratch, subs):
     global _DRIVER_COPY
-    src = LEAN / ".lake" / "build" / "bin" / "ssdriver"
-    dst = Path(scratch) / "ssdriver.pinned"
+    scratch = Path(scratch)
     with flock("lake.lock"):
-        shutil.copy2(src, dst)
+        for sub in subs:
+            shutil.copy2(LEAN / ".lake" / "build" / "bin" / f"ssdriver-{sub}", scratch / f"pinned-{sub}.exe")
+    dst = scratch / "ssdriver.pinned"
+    dst.write_text(f'#!/bin/sh\nexec "{scratch}/pinned-$1.exe" "$@"\n')
+    dst.chmod(0o755)
     _DRIVER_COPY = dst
     return dst
 
@@ -423,14 +435,20 @@ class Check:
         """Build + forbidden-construct grep + axiom audit.  Returns True when all hold.
         Only this property's theorem module (with what it imports) and the driver are built, so a
         proof obligation of another property that no longer checks cannot raise an alarm here."""
-        ok, out = lake_build((f"SSVerif.Props.{self.prop}", "ssdriver") + tuple(extra_targets))
+        subs = drivers_of(self.prop)
+        # the drivers import models only: build and pin them first so that the search for a failing
+        # input can still run the model when a proof obligation no longer checks
+        okd, outd = lake_build(tuple(f"ssdriver-{x}" for x in subs))
+        self.oblige("lake build of the model driver(s) " + ", ".join(f"ssdriver-{x}" for x in subs) + " succeeds", okd,
+                    outd[-3000:] if not okd else "")
+        if okd:
+            pin_driver(self.scratch, subs)
+        ok, out = lake_build((f"SSVerif.Props.{self.prop}",) + tuple(extra_targets))
         self.lake_out = out
-        self.oblige(f"lake build SSVerif.Props.{self.prop} (+ imports) and the driver succeeds", ok,
-                    out[-3000:] if not ok else "")
-        if not ok:
+        self.oblige(f"lake build SSVerif.Props.{self.prop} (+ imports) succeeds", ok, out[-3000:] if not ok else "")
+        if not (ok and okd):
             return False
-        pin_driver(self.scratch)
-        hits = grep_forbidden([f"SSVerif.Props.{self.prop}", "Driver.Main"])
+        hits = grep_forbidden([f"SSVerif.Props.{self.prop}"] + [f"Driver.{x.upper()}" for x in subs])
         self.oblige("no sorry/admit/axiom/native_decide/bv_decide/implemented_by/unsafe/maxHeartbeats 0 in the modules "
                     "this property's theorems and the driver import", not hits, hits)
         thms, problems = audit_axioms(self.prop)
